@@ -6,4 +6,4 @@ Extraction "../ocaml/gen/ConfigModel.ml"
   chan_set_sortlist chan_set_local get_servers_csv set_options parse_sortlist
   sconfig_append_fromstr servers_update lookup_hostaliases
   parse_hosts hosts_search_host junk_hosts_line
-  junk_class_raw sortlist_has_bad_mask junk_db_line junk_localdomain junk_res_options jclass_id ndots_documented_max pton_unspec ntop.
+  junk_class_raw sortlist_has_bad_mask junk_alias_line junk_db_line junk_localdomain junk_res_options jclass_id ndots_documented_max pton_unspec ntop.
